@@ -204,6 +204,7 @@ def rule_print(ctx, py):
     ctx.check(joined, R, rets[0] if rets else f, f._qual, "factors joined by '.'", "a separator the parser accepts", "joined by "
               "something the parser does not split on")
     rule_value_str(ctx, py, R)
+    rule_value_float(ctx, py, R)
     h = py.fn("units.parse_unitvalue")
     src = pyfe.src(h).replace(" ", "")
     ctx.check("tok=s.split()" in src and "value=float(tok[0])" in src, R, h, h._qual, "first blank-separated token is "
@@ -238,6 +239,24 @@ def rule_value_str(ctx, py, R):
               "str / repr of the float: the shortest text that parses back to the same float",
               "the number is printed as `%s`, not as str(self.value): digits are lost (rounding, fixed precision), the printed "
               "quantity does not parse back to the same value" % (pyfe.src(parts[0])[:80] if parts else "?"))
+
+
+def rule_value_float(ctx, py, R="C18.VALUE-STR"):
+    """the number a UnitValue holds is a Python float: str() of it is then the shortest text that float() reads back to the same
+    bits.  A numpy scalar kept as given (float32, longdouble) prints in its own precision, and what is parsed back is another
+    number."""
+    c = py.cls("units.UnitValue")
+    n = 0
+    for m in [x for x in c.body if isinstance(x, ast.FunctionDef)]:
+        for st in ast.walk(m):
+            if isinstance(st, ast.Assign) and any(pyfe.src(t) == "self._value" for t in st.targets):
+                n += 1
+                v = st.value
+                ok = isinstance(v, ast.Call) and isinstance(v.func, ast.Name) and v.func.id == "float" and len(v.args) == 1
+                ctx.check(ok, R, st, "units.UnitValue." + m.name, pyfe.src(st)[:60], "stored as float(..)",
+                          "`%s` keeps the number in the type it was given in: a numpy float32 / longdouble prints with its own "
+                          "digits, the printed quantity parses back to a different value" % pyfe.src(st)[:50])
+    ctx.need(n >= 1, R, "UnitValue: no store to self._value found")
 
 
 FLOAT_TEXTS = ("0.0", "1.0", "-1.5", "2499.99", "1e+16", "-6.02214076e+23", "1.2345e-07", "5e-324", "1.7976931348623157e+308",
